@@ -124,3 +124,22 @@ def eq_circular_in(finding, replay, facts):
 
 
 MATCHERS['eq_circular_in'] = eq_circular_in
+
+
+def order_dependent_elimination(finding, replay, facts):
+  """C07: a program that differs from a compiling original only in the order of conjuncts is
+  rejected by the variable elimination of rule_translate.RuleStructure (ElliminateInternalVariables
+  / SortUnnestings) with one of its two diagnostics.  Other transformations (renaming, rule or
+  disjunct order), other diagnostics, crashes and wrong rows are not covered."""
+  if replay.get('kind') != 'one side rejected':
+    return False
+  label = replay.get('label') or ''
+  if not (label.endswith('/conjuncts') or label.endswith('/all')):
+    return False
+  why = replay.get('why') or ''
+  if 'RuleCompileException' not in why:
+    return False
+  return 'Found no way to assign variables' in why or 'circular dependency of' in why
+
+
+MATCHERS['order_dependent_elimination'] = order_dependent_elimination
